@@ -55,6 +55,13 @@ def base_rules(tier, r):
                 for p in sub:
                     kw[p] = r.choice(PARTS[p])
                 out.append(kw)
+        # the bysetpos=() corner (C12_replace_setpos_empty): recorded as absent, rebuilt as None -- the theorem
+        # says the rule differs in the attribute _bysetpos only; the occurrences are compared here
+        for extra in ({}, {"byweekday": [[0, None], [3, None]]}, {"bymonthday": [15, -1]}):
+            kw = {"freq": freq, "dtstart": START, "count": 8, "until": START + YEARS12, "interval": 1,
+                  "bysetpos": []}
+            kw.update(extra)
+            out.insert(1 + len(extra), kw)
         per_freq.append(out)
     # interleave the frequencies so that a time budget cuts every freq equally
     mixed = []
@@ -96,6 +103,11 @@ def replacements(kw, tier, r):
     return ch
 
 
+def has_empty(kw):
+    """an empty tuple argument cannot be written as RFC text"""
+    return any(isinstance(v, list) and not v for v in kw.values())
+
+
 def render_rfc(kw):
     """the same rule as RFC 5545 text (for rrulestr)"""
     from dateutil import rrule as rr
@@ -125,13 +137,14 @@ def listing(rule):
     return [R.to_int(x) for x in itertools.islice(rule, 30)]
 
 
-def outcome(fn):
-    """first 30 occurrences / exception class / "SLOW" when the rule scans for more than 0.15 s (sparse
-    sub-daily rules run towards year 9999: not comparable in the time a check has)"""
+def outcome(fn, limit=0.15):
+    """first 30 occurrences / exception class / "SLOW" when the rule scans for more than `limit` s.
+    (A cap by UNTIL/COUNT cannot bound the scan: rrule._iter tests `until` only on generated candidates,
+    so a rule whose filters never match runs to year 9999 whatever UNTIL says.)"""
     try:
         with warnings.catch_warnings():
             warnings.simplefilter("ignore")
-            with R.watchdog(0.15):
+            with R.watchdog(limit):
                 return listing(fn())
     except R.Timeout:
         return "SLOW"
@@ -158,7 +171,15 @@ def one_case(kw, ch, source, cache):
         merged = dict(kw)
         merged.update(ch)
         return rr.rrule(**R._kw(rr, merged))
-    return outcome(replaced), outcome(fresh)
+    a, b = outcome(replaced), outcome(fresh)
+    if (a == "SLOW") != (b == "SLOW"):
+        # one side lists at once, the other does not: retry the slow side with a generous limit; if it still
+        # does not list, that asymmetry IS the observation (never skipped)
+        if a == "SLOW":
+            a = outcome(replaced, 6.0)
+        else:
+            b = outcome(fresh, 6.0)
+    return a, b
 
 
 # ------------------------------------------------------------------ genuine defect classes (known findings)
@@ -170,8 +191,20 @@ def matcher_replace_nth(payload):
     if inp.get("mode") != "replace":
         return False
     kw, ch = inp["base_kw"], inp["replace"]
-    return (kw["freq"] > 1 and any(n for (_w, n) in (kw.get("byweekday") or [])) and
-            ch.get("freq") is not None and ch["freq"] <= 1 and "byweekday" not in ch)
+    if not (kw["freq"] > 1 and any(n for (_w, n) in (kw.get("byweekday") or [])) and
+            ch.get("freq") is not None and ch["freq"] <= 1 and "byweekday" not in ch):
+        return False
+    # the RESULT must be the one the recording model (RReplace.record: plain weekdays, n forgotten) predicts:
+    # the constructor applied to the original arguments with every occurrence number dropped, then kw
+    from dateutil import rrule as rr
+    pred_kw = dict(kw)
+    pred_kw["byweekday"] = sorted(set((w, None) for (w, _n) in kw["byweekday"]))
+    pred_kw["byweekday"] = [[w, None] for (w, _x) in pred_kw["byweekday"]]
+    pred_kw.update(ch)
+    R.set_tz(None)
+    predicted = outcome(lambda: rr.rrule(**R._kw(rr, pred_kw)), 6.0)
+    got = payload.get("replace_result")
+    return isinstance(predicted, list) and got == predicted[:12]
 
 
 def run_stream(tier, r, budget_s, on_case, on_rule=None):
@@ -200,14 +233,18 @@ def run_stream(tier, r, budget_s, on_case, on_rule=None):
             on_rule(kw)
         for ch in replacements(kw, tier, r):
             k += 1
-            sources = ["ctor"] + (["rrulestr"] if (tier == "thorough" or k % 3 == 0) else [])
+            sources = ["ctor"] + (["rrulestr"] if ((tier == "thorough" or k % 3 == 0) and not has_empty(kw)) else [])
             for source in sources:
                 cache = (k % 2 == 0)
                 a, b = one_case(kw, ch, source, cache)
-                if a == "SLOW" or b == "SLOW":
-                    st["slow_skipped"] += 1
+                if a == "SLOW" and b == "SLOW":
+                    st["slow_skipped"] += 1          # both sides sparse: not comparable in the time of a check
                     continue
+                if a == "SLOW" or b == "SLOW":
+                    st["one_sided_slow"] = st.get("one_sided_slow", 0) + 1
                 st["cases"] += 1
+                if kw.get("bysetpos") == []:
+                    st["bysetpos_empty_cases"] = st.get("bysetpos_empty_cases", 0) + 1
                 st["by_source"][source] += 1
                 f = str(kw["freq"])
                 st["by_freq"][f] = st["by_freq"].get(f, 0) + 1
